@@ -320,7 +320,10 @@ one item (undefined by the documentation, excluded from C06); the two documentat
 * **Summary / harness writes in the cache log** (C08, C02): writes made by the harness while building the pre-state were counted
   as writes of the instruction → logs are reset after set-up.
 * **OP_RANDOM between implementation and oracle run** (C01 e2e): the two runs drew different random streams → the stub's stream
-  is reset before the oracle run.
+  is reset before the oracle run. The concrete side had the same gap and showed it only in the thorough tier (3-byte locks such as
+  `SIZE RANDOM CHECK_TIMESTAMP`, whose verdict depends on the random byte: six witness mismatches, exit 2): the witness and the
+  counterexample replay of C01 now pin `token_bytes` to the model's random stream (`common.pinned_random`), for the
+  implementation run and the oracle run alike.
 * **log2 rounding chosen by the model** (C10, C11): witnesses / counterexamples with a rounding the real libm does not produce →
   refinement against the real `math.log2` (section 2.4).
 * **EVAL counted for CALL sub-tapes** (C05): the selective logger matched by call depth only → it matches the designated items.
@@ -386,14 +389,19 @@ they replace (`deque.extend`), because a realistic change may use any of it.
   `checks/registry.py`; this file by `mkdesign.py`.
 * No hooks were needed in `/repo` (`MANIFEST.hooks`: add-only, guard `TAPESCRIPT_VERIF`, no source commits): the engine loads and
   instruments the sources itself. `/repo` carries only the `fix:` commits of section 6.
-* Tiers: quick is the per-change check (whole suite ≈ 15 min sequentially on 16 cores); thorough widens the bounds listed per
+* Tiers: quick is the per-change check (whole suite ≈ 12 min sequentially on 16 cores); thorough widens the bounds listed per
   property (more items, longer operands, deeper nestings, longer histories, more shapes). Every thorough command was run end to
   end; where a first version did not finish, the bound was cut and the cut is stated in the bounds: C01 (3-byte locks starting with
-  OP_COPY / hashes / signing instructions: two of 64 splits ran beyond 90 minutes), C04 (builders beyond 8 leaves: a 9-leaf job
-  takes more than ten minutes), C17 (the full builder flows did not finish in 80 minutes; thorough keeps the lite flows for more
-  flag values), C19 (registry histories of length 6 over a 12-operation alphabet). Measured thorough wall times: C02 3 min, C03 51
-  min, C05 1 min, C06 6 min, C07 1 min, C08 1 min, C10 11 min, C12 20 min, C13 7 min, C15 6 min, C18 25 min, C20 2 min, the
-  others under a minute.
+  OP_COPY / hashes / signing instructions: two of 64 splits ran beyond 90 minutes), C04 (builders beyond 8 leaves), C17 (the full
+  builder flows did not finish in 80 minutes; thorough keeps the lite flows for more flag values), C19 (registry histories of
+  length 6 over a 12-operation alphabet; the longest histories are split by their first operation into one job each). Measured
+  thorough wall times (several of them while other checks were running): C01 29 min, C02 3 min, C03 51 min, C04 12 min, C05 1 min,
+  C06 13 min, C07 1 min, C08 1 min, C10 11 min, C12 20 min, C13 7 min, C15 6 min, C16 2 min, C17 3 min, C18 25 min, C19 17 min
+  (1.0 million histories), C20 2 min, the others under a minute.
+* Two late performance repairs of the machinery (no change of any verdict, path or obligation count): the hash stub returns the
+  first application's output terms when the syntactically identical input is hashed again and relates only distinct applications
+  pairwise (merkle builders hash one subtree many times: a 6-leaf builder job went from 54 s to 5 s); and the time-limit policy
+  above (an unconditional six-fold retry had made the four genuinely undecided merging queries of C17 / C18 cost 140 s each).
 '''
 
 
